@@ -562,8 +562,10 @@ Qed.
       two instance-less blocks, an edge-qualified path with an empty triple, a single triple with an empty component *)
 Local Open Scope string_scope.
 Definition ex_lib : list tcell :=
-  [{| t_pattern := "NAND2_X{1,2}"; t_names := ["NAND2_X1"; "NAND2_X2"]; t_ins := ["A1"; "A2"]; t_outs := ["ZN"]; t_gates := [("ZN", "NAND2", ["A1"; "A2"])] |};
-   {| t_pattern := "INV_X1"; t_names := ["INV_X1"]; t_ins := ["I"]; t_outs := ["ZN"]; t_gates := [("ZN", "INV1", ["I"])] |}].
+  [{| t_pattern := "NAND2_X{1,2}"; t_names := ["NAND2_X1"; "NAND2_X2"]; t_ins := ["A1"; "A2"]; t_outs := ["ZN"]; t_gates := [("ZN", "NAND2", ["A1"; "A2"])];
+      t_stmts := [TIn ["A1"; "A2"]; TOut ["ZN"]; TGate "ZN" "NAND2" ["A1"; "A2"]] |};
+   {| t_pattern := "INV_X1"; t_names := ["INV_X1"]; t_ins := ["I"]; t_outs := ["ZN"]; t_gates := [("ZN", "INV1", ["I"])];
+      t_stmts := [TIn ["I"]; TOut ["ZN"]; TGate "ZN" "INV1" ["I"]] |}].
 Definition ex_circ : circ :=
   {| cc_net := {| c_nodes := [{| n_kind := "NAND2_X1"; n_ins := [Some 5; Some 7]; n_outs := [Some 0] |}; {| n_kind := "__fork__"; n_ins := [Some 0]; n_outs := [Some 8] |};
        {| n_kind := "INV_X1"; n_ins := [Some 9]; n_outs := [Some 1] |}; {| n_kind := "__fork__"; n_ins := [Some 1]; n_outs := [Some 10] |};
